@@ -85,14 +85,24 @@ func blid(bl base.Ballot) string {
 	return bl.SignFact().Fact().Hash().String() + "/" + string(bl.SignFact().Signs()[0].Signature())
 }
 
+// newBallot: every third ballot proposes expels (an ordinary INIT / ACCEPT ballot with expel facts is not a
+// suffrage-confirm ballot: its key carries the "-" flag)
 func (w *world) newBallot(k bkey, signer int) (base.Ballot, int) {
+	return w.newBallotX(k, signer, w.nval%3 == 1)
+}
+
+func (w *world) newBallotX(k bkey, signer int, expels bool) (base.Ballot, int) {
 	id := w.nval
 	w.nval++
 	rh := valuehash.NewSHA256([]byte(fmt.Sprintf("verif-c24-ballot-%d-%d", w.seed, id)))
+	var ex []util.Hash
+	if expels {
+		ex = []util.Hash{valuehash.NewSHA256([]byte(fmt.Sprintf("verif-c24-expel-%d-%d", w.seed, id)))}
+	}
 	var bl base.Ballot
 	switch {
 	case k.stage == 1:
-		fact := isaac.NewACCEPTBallotFact(k.point(), rh, rh, nil)
+		fact := isaac.NewACCEPTBallotFact(k.point(), rh, rh, ex)
 		sf := isaac.NewACCEPTBallotSignFact(fact)
 		if err := sf.NodeSign(poolh.Key(w.seed, signer), netID, poolh.Addr(signer)); err != nil {
 			panic(err)
@@ -106,7 +116,7 @@ func (w *world) newBallot(k bkey, signer int) (base.Ballot, int) {
 		}
 		bl = isaac.NewINITBallot(nil, sf, nil)
 	default:
-		fact := isaac.NewINITBallotFact(k.point(), rh, rh, nil)
+		fact := isaac.NewINITBallotFact(k.point(), rh, rh, ex)
 		sf := isaac.NewINITBallotSignFact(fact)
 		if err := sf.NodeSign(poolh.Key(w.seed, signer), netID, poolh.Addr(signer)); err != nil {
 			panic(err)
@@ -203,9 +213,16 @@ func (s *seq) fail(class, desc string) {
 }
 
 func (s *seq) setBallot(k bkey, signer int) {
-	bl, id := s.w.newBallot(k, signer)
+	s.setBallotX(k, signer, s.w.nval%3 == 1)
+}
+
+func (s *seq) setBallotX(k bkey, signer int, expels bool) {
+	bl, id := s.w.newBallotX(k, signer, expels)
+	if expels {
+		s.res.Dist("seq_ballot_with_expels")
+	}
 	added, err := s.w.pool.SetBallot(bl)
-	s.hist = append(s.hist, jstep{"op": "setballot", "h": k.h, "round": k.round, "stage": k.stage, "sc": k.sc, "val": id})
+	s.hist = append(s.hist, jstep{"op": "setballot", "h": k.h, "round": k.round, "stage": k.stage, "sc": k.sc, "expels": expels, "val": id})
 	if err != nil {
 		s.fail("ballot-error", err.Error())
 	}
@@ -447,6 +464,12 @@ func generated(rd *vh.Rand, seed uint64, res *vh.Result, cases *vh.Cases, allowO
 			}
 			s.setBallot(k, rd.Intn(4))
 			res.Dist("seq_setballot")
+			if k.stage == 0 && rd.Bool() { // the same stage point under both suffrage-confirm flags
+				flip := k
+				flip.sc = !k.sc
+				s.getBallot(k)
+				s.getBallot(flip)
+			}
 		case c < 8:
 			k := fixBKey(randBKey(rd, base))
 			if len(bkeys) > 0 && rd.Chance(2, 3) {
@@ -533,6 +556,28 @@ func corpus(seed uint64, res *vh.Result, cases *vh.Cases) {
 	s.getBallot(bkey{h: 30})
 	res.Count("corpus-ballot", true)
 	s.finish(cases, "corpus: ballots")
+
+	// ordinary INIT / ACCEPT ballots that propose expels are not suffrage-confirm ballots: they live under the
+	// plain key, the suffrage-confirm ballot of the same stage point has its own slot (either order)
+	s = newSeq(seed, res)
+	ki, ksc, ka := bkey{h: 33, round: 2}, bkey{h: 33, round: 2, sc: true}, bkey{h: 33, round: 2, stage: 1}
+	s.setBallotX(ki, 0, true)
+	s.getBallot(ki)
+	s.getBallot(ksc)
+	s.setBallotX(ksc, 1, true)
+	s.getBallot(ki)
+	s.getBallot(ksc)
+	s.setBallotX(ka, 2, true)
+	s.getBallot(ka)
+	s.setBallotX(ki, 3, false)
+	s.getBallot(ki)
+	ki2, ksc2 := bkey{h: 34, round: 0}, bkey{h: 34, round: 0, sc: true}
+	s.setBallotX(ksc2, 0, true)
+	s.setBallotX(ki2, 1, true)
+	s.getBallot(ki2)
+	s.getBallot(ksc2)
+	res.Count("corpus-ballot-expels", true)
+	s.finish(cases, "corpus: ballots with expel facts vs suffrage-confirm ballots")
 
 	// clean-up guard: newest below 3 -> nothing removed
 	s = newSeq(seed, res)
